@@ -177,7 +177,7 @@ def run(ctx):
     for n in range(256):
         api(Color.from_ansi(n), "ctor")
         api(Color.parse(f"color({n})"), "ctor")
-        for ty in (ColorType.STANDARD, ColorType.EIGHT_BIT, ColorType.WINDOWS):
+        for ty in (ColorType.STANDARD, ColorType.WINDOWS, ColorType.EIGHT_BIT):
             api(Color("n", ty, n), "raw")  # includes ill-typed numbers (STANDARD 200): constructible, so modelled
     for ty in ColorType:
         api(Color("x", ty), "raw")  # no number, no triplet
@@ -335,4 +335,30 @@ def replay(ctx, case):
     return not fs
 
 
-MANIFEST = {}
+MANIFEST = {
+    "text": "Lean 4 theorems (Props/C18.lean) over an executable model of Color.downgrade, Color.get_ansi_codes, Color.get_truecolor and "
+    "Palette.match, none of which enumerates colours: downgrade of any well-formed colour to any system never raises and lands in the "
+    "system's gamut (downgrade_in_gamut); idempotence for every colour, palette and code variant (downgrade_idem); native colours and the "
+    "default colour returned unchanged (downgrade_fixed_if_native, default_stays); 16-colour indices kept by the 16-colour targets "
+    "(downgrade_fixed_if_representable, proved for the repaired variant; old_downgrade_standard_renumbers is the machine-checked witness that "
+    "today's code turns WINDOWS colour 8 into STANDARD colour 7); Palette.match is the first argmin of the weighted-RGB metric for every "
+    "palette (match_is_argmin, match_total, nearest_unique) and downgrade to standard/windows returns that argmin of the source triplet "
+    "(downgrade_picks_nearest); truecolor->256 lands in 16..255, on the grey ramp / black / white when the saturation test says grey and for "
+    "every r=g=b, else on the cube entry with coordinates (c+25)/51 (eight_bit_number_range, grey_on_ramp); SGR parameters are 39/49, "
+    "30-37/90-97, 40-47/100-107, 38;5;n, 38;2;r;g;b (ansi_codes_standard, ansi_codes_16_ranges, ansi_codes_after_downgrade). Palette side "
+    "conditions (sizes 16/16/256, components <= 255) are re-proved by decide +kernel on the tables translated from rich/_palettes.py on every run. "
+    "Tie: quick = all 32,896 (max,min) channel pairs (float facts directly and through Color.downgrade in every channel arrangement), all 256 "
+    "channel values, all 256 numbers x 3 indexed types + default + ill-formed colours x 4 systems x fg/bg, 30k random RGB, ~85k colours at "
+    "palette decision boundaries / exact ties, ~840k compared cases; thorough = additionally all 16,777,216 RGB x {standard, 256, windows} "
+    "through Color.downgrade.__wrapped__ in 16 processes, each also evaluated against an independent integer oracle.",
+    "note": "Partial where the Python runtime carries the truth: c/255.0, colorsys.rgb_to_hls and round() are modelled by exact rational arithmetic "
+    "plus a 9-entry exception list for the double-precision saturation test `s < 0.1` (all nine are exact ties, sat_exceptions_are_ties); the "
+    "theorems hold for every exception list, the list itself and the rounding formulas are validated exhaustively on every run, not proved. "
+    "Palette.match compares integers where the code compares math.sqrt of them: justified by dist2_le (radicand <= 649,740) and an exhaustive "
+    "per-run check that sqrt is strictly increasing on 0..700,000. functools.lru_cache is assumed transparent (cached vs __wrapped__ compared). "
+    "get_truecolor is modelled for the default terminal theme only and has no theorem. Numbers/components are naturals: negative indices and "
+    "components above 255 answer `unmodelled`. One genuine defect found: downgrade(STANDARD) renumbers 16-colour WINDOWS / EIGHT_BIT(<16) "
+    "colours (8->7, 9->1, 10->2, 12->4); repair in pending_fixes/C18-downgrade-standard-keeps-16-colour-index.diff; until it is applied the "
+    "check prints one VIOLATION (site downgrade:representable, slug downgrade-standard-renumbers-16-colour-index).",
+    "design_ref": "DESIGN.md section 7, C18; section 5 (IEEE doubles in Color.downgrade)",
+}
